@@ -488,8 +488,19 @@ func (t *Tracer) follow(fr *Frame, from, to *ssa.BasicBlock, st State, k func(St
 func (t *Tracer) condView(fr *Frame, c ssa.Value) (vfr *Frame, v ssa.Value, flip bool) {
 	vfr, v = fr, c
 	for depth := 0; depth < 6; depth++ {
+		isCallResult := func(x ssa.Value) bool {
+			if _, isCall := x.(*ssa.Call); isCall {
+				return true
+			}
+			// one result of a helper returning a tuple (`proceed, err := check(...)`)
+			if e, isE := x.(*ssa.Extract); isE {
+				_, isCall := e.Tuple.(*ssa.Call)
+				return isCall
+			}
+			return false
+		}
 		if u, ok := v.(*ssa.UnOp); ok && u.Op == token.NOT {
-			if _, isCall := u.X.(*ssa.Call); isCall {
+			if isCallResult(u.X) {
 				if r := t.Resolve(vfr, u.X); r.V != u.X {
 					vfr, v, flip = r.Fr, r.V, !flip
 					continue
@@ -497,7 +508,7 @@ func (t *Tracer) condView(fr *Frame, c ssa.Value) (vfr *Frame, v ssa.Value, flip
 			}
 			return
 		}
-		if _, isCall := v.(*ssa.Call); isCall {
+		if isCallResult(v) {
 			if r := t.Resolve(vfr, v); r.V != v && r.V != nil {
 				if _, isConst := r.V.(*ssa.Const); isConst {
 					return
